@@ -14,8 +14,16 @@ it names the first component that differs.
 import AsmjitVerif.Model.Reuse
 namespace AsmjitVerif.Reuse
 
+/-- erase logging state and the recomputation flag; the model keeps one record type for all three emitter kinds, so the
+    members a C++ object of that kind does not have (node list of an Assembler, buffer cursor of a Builder, …) are erased too -/
 def Emitter.obs (e : Emitter) : Emitter :=
-  { e with ownLogger := false, logger := false, logComments := false, diag := false, reserved := true, dirty := false }
+  match e.kind with
+  | .asm => { e with ownLogger := false, logger := false, logComments := false, diag := false, reserved := true, dirty := false,
+                     nodes := [], cursor := none, labelNodes := 0, sectionNodes := 0, passes := 0, vregs := 0, janns := 0 }
+  | .bld => { e with ownLogger := false, logger := false, logComments := false, diag := false, reserved := true, dirty := false,
+                     sec := none, off := 0, vregs := 0, janns := 0 }
+  | .cmp => { e with ownLogger := false, logger := false, logComments := false, diag := false, reserved := true, dirty := false,
+                     sec := none, off := 0 }
 
 def Holder.obs (h : Holder) : Holder :=
   { h with logger := false, textCap := false, arenaAllocs := 0, arenaRetained := 0 }
